@@ -18,6 +18,7 @@ type mutant struct {
 	file     string
 	property string
 	expect   []string
+	tier     string // quick unless the header says thorough
 }
 
 func readMutant(path string) (*mutant, error) {
@@ -39,6 +40,8 @@ func readMutant(path string) (*mutant, error) {
 			m.property = strings.TrimSpace(strings.TrimPrefix(ln, "property:"))
 		case strings.HasPrefix(ln, "expect:"):
 			m.expect = append(m.expect, strings.TrimSpace(strings.TrimPrefix(ln, "expect:")))
+		case strings.HasPrefix(ln, "tier:"):
+			m.tier = strings.TrimSpace(strings.TrimPrefix(ln, "tier:"))
 		}
 	}
 	if m.property == "" {
@@ -88,7 +91,11 @@ func cmdSelftest(args []string) int {
 			fmt.Printf("SELFTEST-ERROR %s does not apply: %s\n", filepath.Base(f), o)
 			bad++
 		} else {
-			o, _ := run(self, "check", "--property", m.property, "--tier", "quick", "--repo", work, "--out", out)
+			tier := "quick"
+			if m.tier != "" {
+				tier = m.tier
+			}
+			o, _ := run(self, "check", "--property", m.property, "--tier", tier, "--repo", work, "--out", out)
 			okAll := true
 			for _, e := range m.expect {
 				found := false
